@@ -240,6 +240,110 @@ def find_method(cls, name):
     raise Unsupported("method %s not found" % name)
 
 
+# -- function-local names: the translation is invariant under their renaming ----------
+#
+# The patterns below name function locals of the source (k, v, wanted_sockets, hp_pairs, unknown_values, opts, args,
+# param, app, long_opts ...).  A consistent renaming of function locals changes nothing in behaviour, so it must not
+# change the translation: the locals of each translated method are listed in order of their first binding occurrence
+# (assignment / for / with-as / except-as / comprehension targets; parameters are not locals) and renamed BACK to the
+# reference names of the same rank (REF_LOCALS, read off /repo).  A rename-only edit keeps number and order of first
+# bindings, so the tree handed to the translator is the reference tree; anything else (a local added, dropped, bound
+# earlier or later) shifts the ranks and the patterns fail as before (fail closed).  Refused outright: global / nonlocal
+# declarations, nested functions and lambdas, a different number of locals, and a free name (parameter, global, builtin)
+# of the method that coincides with a reference name (the renaming would capture it).
+# Annotations are dropped (`x: int = 0` is `x = 0`, return and argument annotations are not evaluated at call time).
+
+REF_LOCALS = {
+    "__init__": ["k", "v", "enabled_families", "wanted_sockets", "hp_pairs", "i", "host", "port", "s", "family", "socktype",
+                 "proto", "_", "sockaddr", "header", "unknown_values"],
+    "parse_args": ["long_opts", "opt", "cast", "kw", "app", "opts", "args", "value", "param"],
+    "check_sockets": ["has_unix_socket", "has_inet_socket", "has_unsupported_socket", "sock"],
+}
+
+
+def param_names(fn):
+    a = fn.args
+    names = [x.arg for x in a.posonlyargs + a.args + a.kwonlyargs]
+    if a.vararg:
+        names.append(a.vararg.arg)
+    if a.kwarg:
+        names.append(a.kwarg.arg)
+    return names
+
+
+def local_bindings(fn):
+    """distinct non-parameter names bound in fn, in order of first binding occurrence (source position)"""
+    params = set(param_names(fn))
+    sites = []
+    for n in ast.walk(fn):
+        if n is fn:
+            continue
+        if isinstance(n, (ast.FunctionDef, ast.AsyncFunctionDef, ast.Lambda, ast.ClassDef)):
+            raise Unsupported("nested function / lambda / class in %s" % fn.name)
+        if isinstance(n, (ast.Global, ast.Nonlocal)):
+            raise Unsupported("global / nonlocal declaration in %s" % fn.name)
+        if isinstance(n, ast.Name) and isinstance(n.ctx, (ast.Store, ast.Del)):
+            sites.append((n.lineno, n.col_offset, n.id))
+        elif isinstance(n, ast.ExceptHandler) and n.name:
+            sites.append((n.lineno, n.col_offset, n.name))
+        elif isinstance(n, (ast.MatchAs, ast.MatchStar)) and getattr(n, "name", None):
+            raise Unsupported("match statement in %s" % fn.name)
+    out = []
+    for _, _, name in sorted(sites):
+        if name not in params and name not in out:
+            out.append(name)
+    return out
+
+
+class _Rename(ast.NodeTransformer):
+    def __init__(self, m):
+        self.m = m
+
+    def visit_Name(self, n):
+        if n.id in self.m:
+            n.id = self.m[n.id]
+        return n
+
+    def visit_ExceptHandler(self, n):
+        if n.name in self.m:
+            n.name = self.m[n.name]
+        self.generic_visit(n)
+        return n
+
+    def visit_AnnAssign(self, n):
+        self.generic_visit(n)
+        if n.value is None:
+            return None
+        return ast.copy_location(ast.Assign(targets=[n.target], value=n.value), n)
+
+
+def canon_method(cls, name):
+    """find_method + annotations dropped + function locals renamed back to the reference names of the same rank"""
+    fn = copy.deepcopy(find_method(cls, name))
+    fn.returns = None
+    a = fn.args
+    for x in a.posonlyargs + a.args + a.kwonlyargs + [y for y in (a.vararg, a.kwarg) if y]:
+        x.annotation = None
+    ref = REF_LOCALS[name]
+    actual = local_bindings(fn)
+    if len(actual) != len(ref):
+        raise Unsupported("%s binds %d local names (%s), the reference has %d (%s)" % (
+            name, len(actual), " ".join(actual), len(ref), " ".join(ref)))
+    m = {x: y for x, y in zip(actual, ref) if x != y}
+    if m:
+        free = {n.id for n in ast.walk(fn) if isinstance(n, ast.Name)} - set(actual)
+        free |= set(param_names(fn))
+        dyn = sorted(free & {"locals", "vars", "eval", "exec", "globals", "dir"})
+        if dyn:
+            raise Unsupported("%s uses %s: the names of its locals may matter" % (name, " ".join(dyn)))
+        clash = sorted(free & set(m.values()))
+        if clash:
+            raise Unsupported("%s: renaming locals back to the reference names would capture %s" % (name, " ".join(clash)))
+    fn = _Rename(m).visit(fn)
+    ast.fix_missing_locations(fn)
+    return fn
+
+
 def class_assign(cls, name):
     found = [n for n in cls.body if isinstance(n, ast.Assign) and len(n.targets) == 1
              and isinstance(n.targets[0], ast.Name) and n.targets[0].id == name]
@@ -1157,7 +1261,7 @@ def main(outpath):
     try:
         tree = ast.parse(open(os.path.join(SRC, "adjustments.py")).read())
         cls = find_class(tree, "Adjustments")
-        init = find_method(cls, "__init__")
+        init = canon_method(cls, "__init__")
     except Exception as e:
         o.problems.append("adjustments.py: %s" % e)
         o.w("(* ABSENT everything: %s *)" % safe(str(e)))
@@ -1179,8 +1283,8 @@ def main(outpath):
             o.item("hostport_override", lambda: gen_hostport(sec["hostport"]))
             o.item("families", lambda: gen_families(sec["families"]))
             o.item("proxy", lambda: gen_proxy(sec["proxy"]))
-        o.item("check_sockets", lambda: gen_check_sockets(find_method(cls, "check_sockets")))
-        o.item("cli", lambda: gen_cli(find_method(cls, "parse_args")))
+        o.item("check_sockets", lambda: gen_check_sockets(canon_method(cls, "check_sockets")))
+        o.item("cli", lambda: gen_cli(canon_method(cls, "parse_args")))
     o.item("middleware_installed", gen_middleware)
     o.item("docs_args", gen_docs)
     o.item("help_opts", gen_help)
